@@ -230,3 +230,15 @@ func H_M2_implicit_zero() {
 		nd.Assert(found, "explicit-presence field is encoded once set, even to zero")
 	}
 }
+
+//verif:props=C03,C04 bounds=VAll2;tag-byte+complete-payload-of-every-wire-type maxsteps=8000000
+func H_M2_field_all2() { mRoundTrip(10, mOneFieldBytes(0)) }
+
+//verif:props=C03,C04,C11 bounds=VAll3;tag-byte+complete-payload-of-every-wire-type maxsteps=8000000
+func H_M2_field_all3() { mRoundTrip(11, mOneFieldBytes(0)) }
+
+//verif:props=C04 bounds=VAllRep;tag-byte+complete-payload(packed-payloads-0..4,8-bytes) maxsteps=8000000 tier=thorough timeout=60000
+func H_M2_field_allrep() { mRoundTrip(12, mOneFieldBytesPacked()) }
+
+//verif:props=C04 bounds=VAllPacked;tag-byte+complete-payload(packed-payloads-0..4,8-bytes) maxsteps=8000000 tier=thorough timeout=60000
+func H_M2_field_allpacked() { mRoundTrip(13, mOneFieldBytesPacked()) }
